@@ -42,6 +42,8 @@ def plan(tier, seed):
     specs += [{'kind': 'faults', 'part': p, 'parts': 2} for p in range(2)]
     specs += [{'kind': 'tcp', 'part': p, 'rounds': 6 if tier == 'quick' else 48} for p in range(4)]
     specs.append({'kind': 'to_mllp', 'n': 60 if tier == 'quick' else 1500})
+    specs.append({'kind': 'big_replies', 'sizes': [70000, 300000, 1200000, 5000000] if tier == 'quick' else
+                  [70000, 300000, 1200000, 5000000, 20000000, 3000000, 9000000, 65536, 65537, 262144]})
     return specs
 
 
@@ -50,7 +52,7 @@ def handlers_for(hist, delay=None):
     return {'ADT^A01^ADT_A01': (Ok, 'x', 1), 'ADT^A01': (Ok,), 'ORU^R01^ORU_R01': (Other,), 'ERR': (Err,)}
 
 
-def one_connection(drv, hist, chunks, payload, kind, rec, case, sig, nontrivial=True, client_wait=8.0):
+def one_connection(drv, hist, chunks, payload, kind, rec, case, sig, nontrivial=True, client_wait=8.0, reg=None):
     for attempt in range(3):
         n0 = len(hist.events)
         received, ending, alive = drv.run(chunks, client_wait)
@@ -69,7 +71,7 @@ def one_connection(drv, hist, chunks, payload, kind, rec, case, sig, nontrivial=
     if alive:
         rec.violation('handler-thread-still-running', case, {'ending': ending})
         return
-    for cause, detail in mllpdrv.check_connection(evs, payload, received, ending, REG, kind):
+    for cause, detail in mllpdrv.check_connection(evs, payload, received, ending, reg or REG, kind):
         rec.violation(cause, case, detail)
     rec.count('connections_checked:%s' % kind)
     rec.seen('endings', ending)
@@ -298,6 +300,34 @@ def run_tcp(spec, rec):
         srv.server_close()
 
 
+def run_big_replies(spec, rec):
+    """replies larger than the socket buffers reach the client whole"""
+    hist = mllpdrv.History()
+    Ok, Other, Err = mllpdrv.make_handlers(hist)
+    size = {'n': 0}
+
+    class BigOk(Ok):
+        def reply(self):
+            r = 'BIG|%s|' % mllpdrv.digest(self.incoming_message) + 'x' * size['n']
+            hist.add(ev='reply', cls='BigOk', msg=self.incoming_message, reply=r, thread=threading.get_ident())
+            return r
+    drv = mllpdrv.PairDriver({'ADT^A01': (BigOk,), 'ERR': (Err,)})
+    try:
+        for i, n in enumerate(spec['sizes']):
+            size['n'] = n
+            text = short_text('big%d' % i)
+            data = mllpdrv.frame(text)
+            cuts = [] if i % 2 else [3, len(data) - 2]
+            case = {'kind': 'big_reply', 'text': text, 'cuts': cuts, 'reply_bytes': n}
+            one_connection(drv, hist, mllpdrv.cut(data, cuts), text, 'framed', rec, case, ('big', n, tuple(cuts)),
+                           client_wait=30.0, reg={'ADT^A01': 'BigOk'})
+            rec.count('big_reply_connections')
+            del hist.events[:]
+    finally:
+        drv.close()
+    rec.sample({'kind': 'big_reply', 'sizes': spec['sizes']})
+
+
 def run_to_mllp(spec, rec):
     from hl7apy import parser
     from hl7apy.consts import MLLP_ENCODING_CHARS as MC
@@ -339,7 +369,7 @@ def run_to_mllp(spec, rec):
 
 def run_shard(spec, rec):
     {'splits': run_splits, 'random_splits': run_random_splits, 'faults': run_faults, 'tcp': run_tcp,
-     'to_mllp': run_to_mllp}[spec['kind']](spec, rec)
+     'to_mllp': run_to_mllp, 'big_replies': run_big_replies}[spec['kind']](spec, rec)
 
 
 def replay(case, rec):
@@ -354,6 +384,8 @@ def replay(case, rec):
                       for c in case['chunks']]
             one_connection(drv, hist, chunks, short_text('cF'), 'degenerate' if case['what'] == 'degenerate' else 'malformed',
                            rec, case, ('replay',))
+        elif case['kind'] == 'big_reply':
+            run_big_replies({'sizes': [case['reply_bytes']] * 2}, rec)
         else:
             run_to_mllp({'seed': 0, 'n': 30}, rec)
     finally:
